@@ -717,7 +717,7 @@ check_blocks(const ProjDataInfoGenericNoArcCorr& p, const json& c)
               // outer of the two crystals (ProjDataInfoGeneric::get_LOR).  The round trip therefore reports a miss for most bins
               // and occasionally a bin two tangential positions away.  Excluded by construction for blocks/generic data;
               // the outcome classes are still counted.
-              if (exclusions_on("F4") && exclusions_on("F4a"))
+              if (exclusions_on("F4") && exclusions_on("F4a"))  // F4a: see below
                 {
                   const Bin nb2 = p.get_bin(lor2, 0.);
                   const Result rr = accept_roundtrip(p, b, nb2, false, "two points, blocks");
@@ -728,7 +728,8 @@ check_blocks(const ProjDataInfoGenericNoArcCorr& p, const json& c)
                 {
                   const Bin nb2 = p.get_bin(lor2, 0.);
                   VF_TRY(accept_roundtrip(p, b, nb2, false, "two points"));
-                  if (exclusions_on("F4a")) // (development aid: C12_NO_EXCLUDE=F4a checks the two-point representation only)
+                  static const bool two_points_only = std::getenv("C12_NO_EXCLUDE") && std::string(std::getenv("C12_NO_EXCLUDE")) == "F4a";
+                  if (!two_points_only) // (development aid: C12_NO_EXCLUDE=F4a checks the two-point representation only)
                     {
                       const Bin nb = p.get_bin(lor, 0.);
                       VF_TRY(accept_roundtrip(p, b, nb, false, "sinogram coordinates"));
@@ -808,7 +809,9 @@ check_arc_correction(const shared_ptr<ProjDataInfo>& noarc_sptr, const json& a)
   //  * ArcCorrection keeps the bin edges as float: an edge at distance e from the centre is off by <= 6e-8 e, the width of an
   //    output bin by <= 1.2e-7 e, while the result is divided by the exact sampling -> term edge_rel = 2.4e-7 max|edge| / delta
   //    (2x margin);  float accumulation over the <= ~1000 overlaps of a row: 1e-5.
-  const double eps = std::min((out_edge(omax + 1) - out_lo) / (omax - omin + 1), (in_hi - in_lo) / (imax - imin + 1)) / 10000.;
+  //    (the average output bin is taken over the edges as STIR has them, i.e. including the last edge of finding F1 at
+  //    (max+1.5) x sampling: the larger of the two possible values, so the bound holds with and without that defect)
+  const double eps = std::min((out_edge(omax + 2) - out_lo) / (omax - omin + 1), (in_hi - in_lo) / (imax - imin + 1)) / 10000.;
   const double max_edge = std::max(std::max(std::fabs(out_lo), std::fabs(out_edge(omax + 1))), g.R);
   const double edge_rel = 2.4e-7 * max_edge / delta;
   const double tol_uniform = 2 * eps / delta + edge_rel + 1e-5;
